@@ -92,3 +92,9 @@ Definition set_message_minimal_width_ref (cur w : Z) : Z := if 16 <=? w then w e
 Definition is_any_bits_set_ref (flags f : Z) : bool := negb (Z.land flags f =? 0).
 Definition is_all_bits_set_ref (flags f : Z) : bool := Z.land flags f =? f.
 Definition add_flags_ref (flags : Z) (fs : list Z) : Z := fold_left Z.lor fs flags.
+
+(* the small append helpers of PrintCtx *)
+Definition pc_append_byte_ref (buf : bytes) (b : Z) : option bytes := Some (buf ++ [zb b]).
+Definition pc_append_string_value_ref (buf : bytes) (str : bytes) : option bytes := Some (buf ++ str).
+Definition pc_append_colon_ref (jsonMode : bool) (buf : bytes) : option bytes := Some (buf ++ [if jsonMode then x3a else x3d]).
+Definition pc_append_comma_ref (jsonMode : bool) (buf : bytes) : option bytes := Some (buf ++ [if jsonMode then x2c else x20]).
